@@ -283,7 +283,15 @@ func runC01(p *engine.Prog, r *engine.Report) {
 				probs = append(probs, "request.Targets is "+got+".newTargets, receiver is "+fi.T(x).S+".shard")
 			}
 		}
-		r.Check(len(probs) == 0, "R1.5-posted-is-planned", ck, "call of Shard.UpdateTarget at "+c.at(ci), "Targets: X.newTargets where X.shard is the receiver", strings.Join(probs, "; "))
+		// exactness: the call is conditional on the in-sync flag only; whether a POST is needed is decided
+		// inside Shard.UpdateTarget from the report fetched in this cycle (a lost update is retried)
+		for _, g := range fi.Guards(ci.Block()) {
+			if engine.IsStructuralLiteral(g) || strings.HasSuffix(g, "."+c.fChangeAble.Name()+")") {
+				continue
+			}
+			probs = append(probs, "the update is additionally conditional on "+g)
+		}
+		r.Check(len(probs) == 0, "R1.5-posted-is-planned", ck, "call of Shard.UpdateTarget at "+c.at(ci), "Targets: X.newTargets where X.shard is the receiver; conditional on the in-sync flag only", strings.Join(probs, "; "))
 	}
 	// R1.5b: inside Shard.UpdateTarget and the difference test
 	if ut := p.SSAFunc(c.mUpdateTarget); ut != nil {
